@@ -236,6 +236,9 @@ class FiniteDifference(ApproximationScheme):
         self._starting_outs = system._outputs.asarray(copy=True)
         self._starting_resids = system._residuals.asarray(copy=True)
         self._starting_ins = system._inputs.asarray(copy=True)
+        # discrete outputs written while running the perturbed points must not survive either
+        douts = system._discrete_outputs
+        starting_douts = dict(douts.items()) if douts else None
         if _is_group(system):  # totals/semitotals
             self._results_tmp = self._starting_outs.copy()
         else:
@@ -249,6 +252,10 @@ class FiniteDifference(ApproximationScheme):
         finally:
             # Turn off finite difference.
             system._set_finite_difference_mode(False)
+
+        if starting_douts is not None:
+            for name, val in starting_douts.items():
+                douts[name] = val
 
         # reclaim some memory
         self._starting_ins = None
